@@ -409,7 +409,7 @@ Lemma ss_read_c12 : forall c s client blobber alloc ts ctr id_ok sig_ok s',
 Proof.
   unfold ss_read; intros c s client blobber alloc ts ctr id_ok sig_ok s' Hs H.
   guard_inv H. guard_inv H. guard_inv H. guard_inv H. bind_inv H. rename x into a. guard_inv H.
-  bind_inv H. rename x into d. bind_inv H. guard_inv H. bind_inv H. bind_inv H. inversion H; subst. clear H.
+  bind_inv H. rename x into d. bind_inv H. guard_inv H. guard_inv H. bind_inv H. bind_inv H. inversion H; subst. clear H.
   pose proof (Forall_find_alloc _ _ _ _ Hs E) as Ha.
   unfold st_c12. cbn [st_allocs st_with_allocs st_with_reads st_with_blobbers st_with_rpools]. apply Forall_set_alloc; [exact Hs|].
   unfold al_c12, al_with_bas. rewrite al_with_pools_money.
